@@ -146,10 +146,18 @@ static FAST_SEEN: AtomicU64 = AtomicU64::new(0);
 
 // ------------------------------------------------------------------------------------------------ watch
 
-async fn watch_observer(mut rx: watch::Receiver<u32>, id: u64, mut rng: Rng, style: u64) {
+/// Watched value: the number that matters plus padding, so that forwarding one value takes several round trips
+/// (credits, chunks) and later updates arrive while a transmission is in progress.
+#[derive(Clone, Debug, serde::Serialize, serde::Deserialize)]
+pub struct WVal {
+    pub v: u32,
+    pub pad: Vec<u8>,
+}
+
+async fn watch_observer(mut rx: watch::Receiver<WVal>, id: u64, mut rng: Rng, style: u64) {
     // every observation is logged; the receiver must converge to the last value sent
     match rx.borrow_and_update() {
-        Ok(v) => tr(json!({"ev": "w_obs", "rx": id, "v": *v, "how": "initial"})),
+        Ok(v) => tr(json!({"ev": "w_obs", "rx": id, "v": v.v, "how": "initial"})),
         Err(_) => {
             tr(json!({"ev": "w_err", "rx": id}));
             return;
@@ -159,13 +167,13 @@ async fn watch_observer(mut rx: watch::Receiver<u32>, id: u64, mut rng: Rng, sty
         yields(rng.below(15)).await;
         let res = if style == 0 {
             match rx.changed().await {
-                Ok(()) => rx.borrow_and_update().map(|v| *v).map_err(|_| ()),
+                Ok(()) => rx.borrow_and_update().map(|v| v.v).map_err(|_| ()),
                 Err(_) => Err(()),
             }
         } else {
-            let last = rx.borrow().map(|v| *v).unwrap_or(0);
-            match rx.wait_for(|v| *v > last).await {
-                Ok(v) => Ok(*v),
+            let last = rx.borrow().map(|v| v.v).unwrap_or(0);
+            match rx.wait_for(|v| v.v > last).await {
+                Ok(v) => Ok(v.v),
                 Err(_) => Err(()),
             }
         };
@@ -174,7 +182,7 @@ async fn watch_observer(mut rx: watch::Receiver<u32>, id: u64, mut rng: Rng, sty
             Err(()) => {
                 // sender gone: the value that can still be read must be the last one sent
                 match rx.borrow() {
-                    Ok(v) => tr(json!({"ev": "w_final", "rx": id, "v": *v})),
+                    Ok(v) => tr(json!({"ev": "w_final", "rx": id, "v": v.v})),
                     Err(_) => tr(json!({"ev": "w_final_err", "rx": id})),
                 }
                 return;
@@ -187,65 +195,77 @@ pub async fn watch_scenario(seed: u64, hops: u64, cut: bool) {
     let mut rng = Rng::new(seed ^ 0x3A7C);
     tr(json!({"ev": "reset", "seed": seed, "wl": "watch", "hops": hops, "cut": cut}));
     install_spawn_policy(seed, 1, 4);
-    let (tx, rx0) = watch::channel::<u32, remoc::codec::Default>(0);
+    SENT.store(0, Ordering::SeqCst);
+    let pad = *rng.pick(&[0usize, 0, 40, 150, 400]);
+    let (tx, rx0) = watch::channel::<WVal, remoc::codec::Default>(WVal { v: 0, pad: vec![0; pad] });
     let mut handles: Vec<tokio::task::JoinHandle<()>> = Vec::new();
     let mut links = Vec::new();
-    let mut conns: Vec<RemConn<watch::Receiver<u32>, ()>> = Vec::new();
+    let mut conns: Vec<RemConn<watch::Receiver<WVal>, ()>> = Vec::new();
     for h in 0..hops {
         let (ca, cb) = (upper_cfg(&mut rng), upper_cfg(&mut rng));
-        let c = rem_connect::<watch::Receiver<u32>, ()>(&ca, &cb, seed * 3 + h, h * 10).await;
+        let c = rem_connect::<watch::Receiver<WVal>, ()>(&ca, &cb, seed * 3 + h, h * 10).await;
         links.extend(c.links());
         conns.push(c);
     }
-    let mut next_rx = 1u64;
     let nvals = rng.range(4, 12);
-    // observers are created / transferred at random moments relative to the updates
-    let mut pending_local = Some(rx0);
-    for v in 1..=nvals {
-        if rng.chance(1, 2) && next_rx <= 4 {
-            let rx = match &pending_local {
-                Some(r) if rng.chance(1, 2) => r.clone(),
-                _ => tx.subscribe(),
-            };
-            let depth = if hops > 0 { rng.below(hops + 1) } else { 0 };
-            let id = next_rx;
-            next_rx += 1;
-            tr(json!({"ev": "w_new", "rx": id, "hops": depth, "after": v - 1}));
-            // transfer over `depth` connections (A -> B -> C ...)
-            let mut cur = Some(rx);
-            for c in conns.iter_mut().take(depth as usize) {
-                let (s, r) = tokio::join!(c.a_tx.send(cur.take().unwrap()), c.b_rx.recv());
-                match (s, r) {
-                    (Ok(()), Ok(Some(rx))) => cur = Some(rx),
-                    _ => break,
+    // the updater runs on its own: values 1..=nvals with short random gaps (often none), and the sender is dropped
+    // immediately after the last send.  Receivers are created, cloned and transferred concurrently.
+    let mut ru = Rng::new(seed * 29 + 3);
+    let cut_links: Vec<Link> = if cut && !conns.is_empty() { conns[0].links() } else { Vec::new() };
+    let updater = spawn_d(1, async move {
+        yields(ru.below(30)).await;
+        for v in 1..=nvals {
+            let ok = tx.send(WVal { v: v as u32, pad: vec![v as u8; pad] }).is_ok();
+            SENT.store(v, Ordering::SeqCst);
+            tr(json!({"ev": "w_send", "v": v, "ok": ok}));
+            if v == nvals / 2 && !cut_links.is_empty() {
+                tr(json!({"ev": "fault", "kind": "cut"}));
+                for l in &cut_links {
+                    l.set(|st| {
+                        st.sink_err = true;
+                        st.stream_err = true;
+                    });
                 }
             }
-            let style = rng.below(2);
-            match cur {
-                Some(cur) => handles.push(spawn_d(depth + 1, watch_observer(cur, id, Rng::new(seed * 11 + id), style))),
-                None => tr(json!({"ev": "w_transfer_failed", "rx": id})),
+            if v < nvals {
+                let gap = match ru.below(4) {
+                    0 => 0,
+                    1 => ru.below(4),
+                    _ => ru.below(25),
+                };
+                yields(gap).await;
             }
         }
-        let ok = tx.send(v as u32).is_ok();
-        tr(json!({"ev": "w_send", "v": v, "ok": ok}));
-        yields(rng.below(25)).await;
-        if cut && v == nvals / 2 && !conns.is_empty() {
-            tr(json!({"ev": "fault", "kind": "cut"}));
-            let c = &conns[0];
-            c.ab.set(|st| {
-                st.sink_err = true;
-                st.stream_err = true;
-            });
-            c.ba.set(|st| {
-                st.sink_err = true;
-                st.stream_err = true;
-            });
+        tr(json!({"ev": "w_drop_sender", "last": nvals}));
+        drop(tx);
+    });
+    let mut next_rx = 1u64;
+    let pending_local = Some(rx0);
+    let nrx = rng.range(2, 4);
+    for _ in 0..nrx {
+        yields(rng.below(60)).await;
+        let rx = pending_local.as_ref().unwrap().clone();
+        let depth = if hops > 0 { rng.below(hops + 1) } else { 0 };
+        let id = next_rx;
+        next_rx += 1;
+        tr(json!({"ev": "w_new", "rx": id, "hops": depth, "after": SENT.load(Ordering::SeqCst)}));
+        // transfer over `depth` connections (A -> B -> C ...) while the updater keeps going
+        let mut cur = Some(rx);
+        for c in conns.iter_mut().take(depth as usize) {
+            let (s, r) = tokio::join!(c.a_tx.send(cur.take().unwrap()), c.b_rx.recv());
+            match (s, r) {
+                (Ok(()), Ok(Some(rx))) => cur = Some(rx),
+                _ => break,
+            }
+        }
+        let style = rng.below(2);
+        match cur {
+            Some(cur) => handles.push(spawn_d(depth + 1, watch_observer(cur, id, Rng::new(seed * 11 + id), style))),
+            None => tr(json!({"ev": "w_transfer_failed", "rx": id})),
         }
     }
-    // the sender is dropped right after its last send
-    tr(json!({"ev": "w_drop_sender", "last": nvals}));
-    drop(tx);
-    drop(pending_local.take());
+    drop(pending_local);
+    handles.push(updater);
     let left = wait_tasks(&mut handles, &links, 4000).await;
     tr(json!({"ev": "w_end", "pending": left}));
     for h in handles {
